@@ -190,6 +190,7 @@ class LoopCheck(Check):
             loop_checks.check_run(ctx, ref, P)
             return
         loop_checks.check_run(ctx, ref, P - {"C11"})
+        self.validate_against_numpy(ctx, cfg, ref)
         ctx.prove(len(ref.checkpoints) >= 1, "c11/has_checkpoints")
         routes = cfg.get("routes", ["bytes", "live_dict"])
         for k, ck in enumerate(ref.checkpoints):
@@ -315,6 +316,7 @@ class LoopCheck(Check):
         env.run(checkpoint="callback", checkpoint_every=ce)
         if env.stopped:
             raise core.PathCut()
+        self.validate_against_numpy(ctx, cfg, env)
         hist = env.sampler.history
         K = len(hist.beta)
         its = [c["iteration"] for c in env.checkpoints]
